@@ -1,2 +1,3 @@
+@frequency.setter
 def spec(self, value):
     self.__frequency_scale = argtest.gte('frequency', value, 0, float)
